@@ -20,7 +20,7 @@ MISSING = object()
 def universe():
     pts = []
     tagvals = [MISSING, None, "", "x", "xy"]
-    fldvals = [MISSING, None, 0, -1, 1, 2.5]
+    fldvals = [MISSING, None, 0, -1, -2, 1, 2.5]
     for a, b in itertools.product(tagvals, ["x", MISSING, None]):
         for p, q in itertools.product(fldvals, [MISSING, 1]):
             tags = {k: v for k, v in (("a", a), ("b", b)) if v is not MISSING}
@@ -69,6 +69,9 @@ def atoms():
         for name, op in OPS:
             for rhs in (1, 0):
                 A.append(("F.%s%s%r" % (k, name, rhs), (lambda k=k, op=op, rhs=rhs: op(FieldQuery()[k], rhs)), cmp_sem(fl(k), op, rhs), True))
+        # right-hand sides that are different numbers with the same hash(): hash(-1) == hash(-2)
+        for rhs in (-1, -2):
+            A.append(("F.%s==%r" % (k, rhs), (lambda k=k, rhs=rhs: FieldQuery()[k] == rhs), cmp_sem(fl(k), O.eq, rhs), True))
         A.append(("F.%s.exists" % k, (lambda k=k: FieldQuery()[k].exists()), (lambda p, k=k: k in p.fields), True))
         A.append(("F.%s.test" % k, (lambda k=k: FieldQuery()[k].test(_is_zero)), (lambda p, k=k: k in p.fields and _is_zero(p.fields[k])), True))
         A.append(("F.%s.test2" % k, (lambda k=k: FieldQuery()[k].test(_ge, 1)), (lambda p, k=k: k in p.fields and _ge(p.fields[k], 1)), True))
